@@ -626,6 +626,104 @@ benign(
 )
 
 
+benign(
+    "c17-read-ahead-per-socket",
+    "C17",
+    "bits/p2p.py",
+    """    msg = b""
+    while len(msg) != MSG_HEADER_LEN:
+        chunk = sock.recv(MSG_HEADER_LEN - len(msg))
+        if not chunk:
+            raise ConnectionError("connection closed by peer while reading header")
+        msg += chunk
+""",
+    """    buf = _READ_AHEAD.setdefault(sock, bytearray())  # surplus bytes live and die with their socket object
+
+    def _need(n, what):
+        while len(buf) < n:
+            chunk = sock.recv(4096)
+            if not chunk:
+                raise ConnectionError(f"connection closed by peer while reading {what}")
+            buf.extend(chunk)
+
+    _need(MSG_HEADER_LEN, "header")
+    _size = int.from_bytes(buf[16:20], "little")
+    _need(MSG_HEADER_LEN + _size, "payload")
+    msg = bytes(buf[: MSG_HEADER_LEN + _size])
+    del buf[: MSG_HEADER_LEN + _size]
+""",
+    runs=30000,
+)
+B[-1]["edits"].append(
+    (
+        "bits/p2p.py",
+        "log = logging.getLogger(__name__)\nlog.setLevel(logging.DEBUG)\n",
+        "log = logging.getLogger(__name__)\nlog.setLevel(logging.DEBUG)\nimport weakref\n\n_READ_AHEAD = weakref.WeakKeyDictionary()\n",
+    )
+)
+benign(
+    "c18-dispatcher-thread",
+    "C18",
+    "bits/p2p.py",
+    """            if command in self._registered_commands_to_handle:
+                self.handle_command(peer_no, command, payload)
+            else:
+                self._msg_queue.append((peer_no, command, payload))
+""",
+    """            self._inbox_put((peer_no, command, payload))
+""",
+    runs=4000,
+)
+B[-1]["edits"].append(
+    (
+        "bits/p2p.py",
+        """    def connect_peer(self, host: Union[str, bytes], port: int):
+""",
+        """    def _inbox_put(self, item):
+        import queue
+        import threading
+
+        if not hasattr(self, "_inbox"):
+            with _INBOX_INIT:
+                if not hasattr(self, "_inbox"):
+                    self._inbox = queue.Queue()
+                    t = threading.Thread(target=self._dispatch, daemon=True)
+                    self._dispatcher = t
+                    t.start()
+        self._inbox.put(item)
+
+    def _dispatch(self):
+        # a single consumer: handled commands are answered here, the rest is queued
+        while True:
+            peer_no, command, payload = self._inbox.get()
+            if command in self._registered_commands_to_handle:
+                self.handle_command(peer_no, command, payload)
+            else:
+                self._msg_queue.append((peer_no, command, payload))
+            self._inbox.task_done()
+
+    def connect_peer(self, host: Union[str, bytes], port: int):
+""",
+    )
+)
+# everything a receive thread took off the wire must have been dispatched before its socket goes away
+B[-1]["edits"].append(
+    (
+        "bits/p2p.py",
+        """        self._peer_sockets[peer_no].close()
+        log.debug(f"peer {peer_no} socket closed. exit recv_loop")
+""",
+        """        if hasattr(self, "_inbox"):
+            self._inbox.join()
+        self._peer_sockets[peer_no].close()
+        log.debug(f"peer {peer_no} socket closed. exit recv_loop")
+""",
+    )
+)
+B[-1]["edits"].append(("bits/p2p.py", "from threading import Event\n", "from threading import Event, Lock\n"))
+B[-1]["edits"].append(("bits/p2p.py", "log = logging.getLogger(__name__)\nlog.setLevel(logging.DEBUG)\n", "log = logging.getLogger(__name__)\nlog.setLevel(logging.DEBUG)\n_INBOX_INIT = Lock()\n"))
+
+
 def judge_benign(m, workers):
     root = _scratch_root()
     try:
